@@ -75,6 +75,7 @@ type Finding struct {
 // Run is one invocation of one property's monitor.
 type Run struct {
 	violations int64 // first field: 64-bit atomics need 8-byte alignment on 32-bit platforms
+	serialStop chan struct{}
 
 	Prop    string
 	Tier    string
@@ -332,7 +333,7 @@ func (r *Run) supervise(stop chan struct{}) {
 			if ee, ok := err.(*exec.ExitError); ok && (ee.ExitCode() == 137 || ee.ExitCode() == 124 || ee.ExitCode() < 0) {
 				hung = true
 			}
-			if hung && (r.Prop == "C06" || r.Prop == "C07" || r.Prop == "C15") { // properties whose statement includes that the call returns (C15: "the client gets status 500")
+			if hung && (r.Prop == "C06" || r.Prop == "C07" || r.Prop == "C15" || r.Prop == "C16") { // properties whose statement includes that the call returns (C15: "the client gets status 500"; C16: Static serves or leaves the request to the rest of the chain)
 				fmt.Printf("VIOLATION property=%s replay=%s\n", r.Prop, path)
 				fmt.Printf("  kind=hang:%s case does not return (also not in an isolated 90s re-run)\n", kind)
 				atomic.AddInt64(&r.violations, 1)
@@ -390,8 +391,25 @@ func (r *Run) Serial() *W {
 	return &W{R: r, ID: 0, nontrivial: map[uint64]struct{}{}, counters: map[string]int64{}}
 }
 
+// SerialSupervised is Serial with the hang supervisor watching the section (cases there must Begin often enough:
+// a case that stays silent for 25 s is re-run in isolation). Merge ends the supervision.
+func (r *Run) SerialSupervised() *W {
+	w := r.Serial()
+	if r.serialStop == nil {
+		r.serialStop = make(chan struct{})
+		go r.supervise(r.serialStop)
+	}
+	return w
+}
+
 // Merge folds a Serial() worker view into the run.
-func (w *W) Merge() { w.R.merge(w) }
+func (w *W) Merge() {
+	if w.R.serialStop != nil {
+		close(w.R.serialStop)
+		w.R.serialStop = nil
+	}
+	w.R.merge(w)
+}
 
 // Eval counts one executed case.
 func (w *W) Eval() { w.evals++ }
